@@ -1,7 +1,7 @@
 (* TypingExtend.v — an equational presentation of [extend_in] and the extension theorem:
    a successful extension yields a spec the base is compatible with, hence (by the soundness of
    compat) every value of the extended spec is accepted by the base. *)
-From PG Require Import Common.Tactics Model.Typing Proofs.TypingBasics Proofs.TypingApply Proofs.TypingCompat.
+From PG Require Import Common.Tactics Model.Typing Proofs.TypingBasics Proofs.TypingApply Proofs.TypingDict Proofs.TypingCompat.
 Local Open Scope Z_scope.
 Local Arguments Z.mul : simpl never.
 
@@ -546,4 +546,81 @@ Proof.
   destruct (extend_compat_seq q NQ c G b c' B H) as [C (_ & _ & _ & _ & _ & Wc')].
   split; auto. destruct B as (NUb & NSb & _).
   intros v T Cv. eapply compat_sound_seq; eauto.
+Qed.
+
+(* ------------------------------------------------------------------------------------------ *)
+(** * Schema.extend: the fields two schemas share *)
+
+Lemma fields_extend_shared : forall f (bfs : list (fkey * spec)) fs fs',
+  fields_extend f bfs fs = Ok fs' ->
+  forall k sc sb, In (k, sc) fs -> field_of k bfs = Some sb ->
+  exists sc', f sc sb = Ok sc' /\ In (k, sc') fs'.
+Proof.
+  induction fs as [|[k0 s0] r IH]; simpl; intros fs' H k sc sb I Fb; [contradiction|].
+  destruct (field_of k0 bfs) as [sb0|] eqn:F0.
+  - destruct (f s0 sb0) as [s0'|] eqn:E0; simpl in H; [|discriminate].
+    destruct (fields_extend f bfs r) as [r'|] eqn:Er; simpl in H; inv H.
+    destruct I as [X|I].
+    + inv X. rewrite Fb in F0. inv F0. exists s0'. split; auto. left; reflexivity.
+    + destruct (IH _ eq_refl _ _ _ I Fb) as [sc' [A B]]. exists sc'. split; auto. right; auto.
+  - destruct (fields_extend f bfs r) as [r'|] eqn:Er; simpl in H; inv H.
+    destruct I as [X|I].
+    + inv X. congruence.
+    + destruct (IH _ eq_refl _ _ _ I Fb) as [sc' [A B]]. exists sc'. split; auto. right; auto.
+Qed.
+
+Lemma fields_extend_keys : forall f (bfs : list (fkey * spec)) fs fs',
+  fields_extend f bfs fs = Ok fs' -> map fst fs' = map fst fs.
+Proof.
+  induction fs as [|[k0 s0] r IH]; simpl; intros fs' H. { inv H; reflexivity. }
+  destruct (field_of k0 bfs).
+  - destruct (f s0 s); simpl in H; [|discriminate].
+    destruct (fields_extend f bfs r); simpl in H; inv H. simpl. f_equal. auto.
+  - destruct (fields_extend f bfs r); simpl in H; inv H. simpl. f_equal. auto.
+Qed.
+
+Lemma keys_distinct_map : forall {A B} (l : list (fkey * A)) (l' : list (fkey * B)),
+  map fst l' = map fst l -> keys_distinct l = true -> keys_distinct l' = true.
+Proof.
+  intros A B l. induction l as [|[k a] r IH]; destruct l' as [|[k' b] r']; simpl; intros E D; try discriminate; auto.
+  inv E. apply andb_true_iff in D as [D1 D2]. rewrite (IH _ H1 D2), andb_true_r.
+  assert (X : forall key, (field_of key r' = None) <-> (field_of key r = None)).
+  { clear - H1. revert r' H1. induction r as [|[k0 a0] r IH]; destruct r' as [|[k1 b1] r']; simpl; intros E key; try discriminate.
+    - tauto.
+    - inv E. destruct (fkey_eqb key k0). split; discriminate. apply IH; auto. }
+  destruct (field_of k r) eqn:F; [discriminate|]. destruct (field_of k r') eqn:F'; auto.
+  apply X in F. congruence.
+Qed.
+
+(* the merged schema keeps, under a shared key, the child's extended field *)
+Lemma merged_shared : forall (bfs fs' : list (fkey * spec)) k sb sc',
+  field_of k bfs = Some sb -> field_of k fs' = Some sc' -> field_of k (merged_schema bfs fs') = Some sc'.
+Proof.
+  unfold merged_schema. intros bfs fs' k sb sc' Fb Fc.
+  assert (G : forall l, field_of k l = Some sb ->
+            field_of k (map (fun kf => match field_of (fst kf) fs' with Some s' => (fst kf, s') | None => kf end) l ++
+                        filter (fun kf => match field_of (fst kf) bfs with Some _ => false | None => true end) fs') = Some sc').
+  { induction l as [|[k0 s0] r IH]; simpl; intros F; [discriminate|].
+    destruct (fkey_eqb k k0) eqn:E.
+    - apply fkey_eqb_eq in E. subst k0. rewrite Fc. simpl. rewrite fkey_eqb_refl. reflexivity.
+    - destruct (field_of k0 fs'); simpl; rewrite E; auto. }
+  auto.
+Qed.
+
+Theorem schema_extend_shared_fields : forall q bfs fs fs',
+  no_quirks q -> keys_distinct fs = true ->
+  fields_extend (extend_in q) bfs fs = Ok fs' ->
+  forall k sc sb, In (k, sc) fs -> field_of k bfs = Some sb ->
+  good sc -> base_ok sb -> wf sb ->
+  exists sc', field_of k (merged_schema bfs fs') = Some sc' /\
+              extend_in q sc sb = Ok sc' /\ compat q sb sc' = true /\
+              (forall v, total v = true -> conforms sc' v -> accepts sb v).
+Proof.
+  intros q bfs fs fs' NQ KD FE k sc sb I Fb G B Wb.
+  destruct (fields_extend_shared _ _ _ _ FE _ _ _ I Fb) as [sc' [E I']].
+  pose proof (keys_distinct_map fs fs' (fields_extend_keys _ _ _ _ FE) KD) as KD'.
+  exists sc'. split; [|split; auto].
+  - eapply merged_shared; eauto. apply In_field_of; auto.
+  - destruct (extend_compat_seq q NQ sc G sb sc' B E) as [C (_ & _ & _ & _ & _ & Wc')].
+    split; auto. destruct B as (NUb & NSb & _). intros v T Cv. eapply compat_sound_seq; eauto.
 Qed.
